@@ -134,4 +134,30 @@ func init() {
 		{"s6enc-k-bits-of-n", "graph/encoding.go", "\tk := 64 - bits.LeadingZeros64(uint64(n-1))\n", "\tk := 64 - bits.LeadingZeros64(uint64(n))\n", "SEXTET:graph.Sparse6Encode:k formula"},
 		{"g6enc-offset-64", "graph/encoding.go", "\tif bIndex != 0 {\n\t\ts = append(s, b+63)\n\t}", "\tif bIndex != 0 {\n\t\ts = append(s, b+64)\n\t}", "SEXTET:graph.Graph6Encode:byte offset"},
 	}
+	mutants["C05"] = []mutant{
+		{"sparse-removevertex-forgets-degrees", "graph/graph_sparse.go", "\t\tg.Neighbourhoods[v].Remove(i)\n\t\tg.DegreeSequence[v]--\n\t}\n\n\tg.Neighbourhoods = g.Neighbourhoods[:i+copy(g.Neighbourhoods[i:], g.Neighbourhoods[i+1:])]\n\tg.DegreeSequence = g.DegreeSequence[:i+copy(g.DegreeSequence[i:], g.DegreeSequence[i+1:])]\n", "\t\tg.Neighbourhoods[v].Remove(i)\n\t}\n\n\tg.Neighbourhoods = g.Neighbourhoods[:i+copy(g.Neighbourhoods[i:], g.Neighbourhoods[i+1:])]\n", "COUPLE:(*graph.SparseGraph).RemoveVertex"},
+		{"dense-addvertex-forgets-edge-count", "graph/graph_dense.go", "\tg.NumberOfVertices++\n\tg.NumberOfEdges += len(neighbours)\n", "\tg.NumberOfVertices++\n", "COUPLE:(*graph.DenseGraph).AddVertex"},
+		{"dense-removeedge-early-return-after-clear", "graph/graph_dense.go", "\tg.DegreeSequence[i]--\n\tg.DegreeSequence[j]--\n\tg.NumberOfEdges--\n}", "\tif g.NumberOfEdges == 0 {\n\t\treturn\n\t}\n\tg.DegreeSequence[i]--\n\tg.DegreeSequence[j]--\n\tg.NumberOfEdges--\n}", "COUPLE:(*graph.DenseGraph).RemoveEdge"},
+		{"sparse-addedge-one-endpoint-degree", "graph/graph_sparse.go", "\tg.NumberOfEdges++\n\tg.DegreeSequence[i]++\n\tg.DegreeSequence[j]++\n}", "\tg.NumberOfEdges++\n\tg.DegreeSequence[i]++\n\tg.DegreeSequence[i]++\n}", "COUPLE:(*graph.SparseGraph).AddEdge"},
+		{"sparse-removeedge-increments-count", "graph/graph_sparse.go", "\tg.Neighbourhoods[j].Remove(i)\n\tg.NumberOfEdges--\n", "\tg.Neighbourhoods[j].Remove(i)\n\tg.NumberOfEdges++\n", "COUPLE:(*graph.SparseGraph).RemoveEdge"},
+		{"dense-copy-shares-degrees", "graph/graph_dense.go", "\tnewDegrees := make([]int, len(g.DegreeSequence))\n\tcopy(newDegrees, g.DegreeSequence)\n\treturn &DenseGraph{", "\tnewDegrees := g.DegreeSequence[:len(g.DegreeSequence):len(g.DegreeSequence)]\n\treturn &DenseGraph{", "FRESH:(*graph.DenseGraph).Copy"},
+		{"sparse-copy-shares-rows", "graph/graph_sparse.go", "\t\ttmpNeighbourhoods[i] = make(sortints.SortedInts, len(g.Neighbourhoods[i]))\n\t\tcopy(tmpNeighbourhoods[i], g.Neighbourhoods[i])\n", "\t\ttmpNeighbourhoods[i] = g.Neighbourhoods[i]\n", "FRESH:(graph.SparseGraph).Copy"},
+		{"sparse-induced-sorts-v-in-place", "graph/graph_sparse.go", "\tn := len(V)\n\tvalues, indices := intsSort(V)", "\tn := len(V)\n\tsort.Ints(V)\n\tvalues, indices := intsSort(V)", "FRESH:(graph.SparseGraph).InducedSubgraph"},
+		{"dense-addedge-swapped-triangle-index", "graph/graph_dense.go", "\tif i < j {\n\t\tg.Edges[(j*(j-1))/2+i] = 1\n\t} else if i > j {\n\t\tg.Edges[(i*(i-1))/2+j] = 1\n\t}\n}", "\tif i < j {\n\t\tg.Edges[(i*(i-1))/2+j] = 1\n\t} else if i > j {\n\t\tg.Edges[(i*(i-1))/2+j] = 1\n\t}\n}", "TRI:(*graph.DenseGraph).AddEdge"},
+		{"dense-neighbours-upper-loop-includes-v", "graph/graph_dense.go", "\tfor i := v + 1; i < g.N(); i++ {\n\t\tindex := (i*(i-1))/2 + v\n\t\tif g.Edges[index] > 0 {\n\t\t\tr = append(r, i)", "\tfor i := v; i < g.N(); i++ {\n\t\tindex := (i*(i-1))/2 + v\n\t\tif g.Edges[index] > 0 {\n\t\t\tr = append(r, i)", "TRI:(graph.DenseGraph).Neighbours"},
+		{"dense-isedge-row-formula", "graph/graph_dense.go", "\tif i < j && g.Edges[(j*(j-1))/2+i] > 0 {", "\tif i < j && g.Edges[(j*(j+1))/2+i] > 0 {", "TRI:(graph.DenseGraph).IsEdge"},
+	}
+	mutants["C06"] = []mutant{
+		{"newdense-keeps-caller-slice", "graph/graph_dense.go", "DegreeSequence: degrees, Edges: copyOfEdges}", "DegreeSequence: degrees, Edges: edges}", "FRESH:graph.NewDense"},
+		{"newsparse-keeps-caller-rows", "graph/graph_sparse.go", "\t\ttmpNeighbourhoods[i] = sortints.NewSortedInts(neighbourhoods[i]...)", "\t\ttmpNeighbourhoods[i] = neighbourhoods[i]", "FRESH:graph.NewSparse"},
+		{"newsparse-sorts-caller-rows", "graph/graph_sparse.go", "\tfor i := range neighbourhoods {\n\t\ttmpNeighbourhoods[i] =", "\tfor i := range neighbourhoods {\n\t\tsort.Ints(neighbourhoods[i])\n\t\ttmpNeighbourhoods[i] =", "FRESH:graph.NewSparse"},
+		{"prufer-literal-again", "graph/encoding.go", "\treturn NewDense(n, edges)\n}\n\n//AdjacencyMatrixEncode", "\treturn &DenseGraph{NumberOfVertices: n, Edges: edges}\n}\n\n//AdjacencyMatrixEncode", "LITERAL:graph.PruferDecode"},
+		{"star-literal-without-degrees", "graph/generating.go", "\treturn &DenseGraph{NumberOfVertices: n, NumberOfEdges: n - 1, DegreeSequence: degrees, Edges: edges}\n}\n\n//RookGraph", "\t_ = degrees\n\treturn &DenseGraph{NumberOfVertices: n, NumberOfEdges: n - 1, Edges: edges}\n}\n\n//RookGraph", "LITERAL:graph.Star"},
+		{"cycle-guard-too-weak", "graph/generating.go", "\tif n < 3 {\n\t\tpanic(\"n must be at least 3.\")\n\t}\n\tedges := make", "\tif n < 1 {\n\t\tpanic(\"n must be at least 3.\")\n\t}\n\tedges := make", "TRI:graph.Cycle"},
+		{"flowersnark-guard-dropped", "graph/generating.go", "\tif n < 3 {\n\t\tpanic(\"n must be at least 3\")\n\t}\n", "", "TRI:graph.FlowerSnark"},
+		{"path-wrong-row", "graph/generating.go", "\tfor i := 0; i < n-1; i++ {\n\t\tedges[((i+1)*i)/2+i] = 1\n\t}\n\n\tdegrees := make([]int, n)\n\tif n > 0 {\n\t\tdegrees[0] = 1", "\tfor i := 0; i < n-1; i++ {\n\t\tedges[(i*(i-1))/2+i] = 1\n\t}\n\n\tdegrees := make([]int, n)\n\tif n > 0 {\n\t\tdegrees[0] = 1", "TRI:graph.Path"},
+		{"linegraph-row-off-by-one", "graph/transformation.go", "\t\t\t\tfor k, v := range lVerticesLower {\n\t\t\t\t\tif i == v {\n\t\t\t\t\t\tedges[(mIndex*(mIndex-1))/2+k] = 1", "\t\t\t\tfor k, v := range lVerticesLower {\n\t\t\t\t\tif i == v {\n\t\t\t\t\t\tedges[(mIndex*(mIndex-1))/2+k+1] = 1", "TRI:graph.LineGraphDense"},
+		{"complementdense-index-not-advanced", "graph/transformation.go", "\t\t\tif !g.IsEdge(i, j) {\n\t\t\t\tedges[index] = 1\n\t\t\t}\n\t\t\tindex++", "\t\t\tif !g.IsEdge(i, j) {\n\t\t\t\tedges[index] = 1\n\t\t\t\tindex++\n\t\t\t}", "TRI:graph.ComplementDense"},
+		{"star-centre-column-shifted", "graph/generating.go", "\tfor i := 1; i < n; i++ {\n\t\tedges[(i*(i-1))/2] = 1\n\t}", "\tfor i := 1; i < n; i++ {\n\t\tedges[(i*(i-1))/2+1] = 1\n\t}", "TRI:graph.Star"},
+	}
 }
